@@ -11,6 +11,8 @@
   inf-guard           Factor.__sub__ selects on infinities of the subtrahend
   elimination-fill-in when the triangulation eliminates a node, its neighbours are pairwise connected *in the working graph* before
                       the node is removed (later eliminations must see earlier fill-in edges)
+  tree-connected      the clique graph handed to the spanning-tree routine links EVERY pair of maximal cliques (also attribute-disjoint
+                      ones): BP normalises all beliefs by the logZ of one clique, which is only valid on a connected tree
 Not decided: equality with brute-force marginals; independence of the elimination / message order; validity of the junction tree
 for all graphs (C12, not applicable).
 """
@@ -44,6 +46,7 @@ def run(ctx):
     check_equations(ctx, bp)
     check_inf_guard(ctx)
     check_fill_in(ctx)
+    check_tree_connected(ctx)
 
 
 def check_copies(ctx, bp):
@@ -179,3 +182,30 @@ def check_fill_in(ctx):
     init = [s for s in fi.body if isinstance(s, ast.Assign) and U(s.targets[0]) == G]
     ok = bool(init) and U(init[0].value) in ('nx.Graph(self.graph)', 'self.graph.copy()')
     ctx.ob('elimination-fill-in', fi, init[0] if init else fi.node, ok, 'the working graph must be a copy of the model graph (the original is needed afterwards)')
+
+
+def check_tree_connected(ctx):
+    fi = ctx.repo.func(JT, 'JunctionTree._make_tree')
+    ctx.analysed(fi)
+    loops = [s for s in walk_shallow(fi.node) if isinstance(s, ast.For) and isinstance(s.iter, ast.Call)
+             and U(s.iter.func).endswith('combinations') and len(s.iter.args) == 2 and U(s.iter.args[1]) == '2']
+    if len(loops) != 1:
+        raise AnalysisError('_make_tree: loop over all pairs of maximal cliques not found')
+    loop = loops[0]
+    adds = [c for c in calls_in(loop) if isinstance(c.func, ast.Attribute) and c.func.attr == 'add_edge']
+    ok = False
+    where = loop
+    if len(adds) == 1:
+        where = adds[0]
+        stmt = None
+        for s in loop.body:
+            if any(c is adds[0] for c in calls_in(s)):
+                stmt = s
+        ok = isinstance(stmt, ast.Expr) and {U(a) for a in adds[0].args[:2]} == {U(e) for e in loop.target.elts}
+    ctx.ob('tree-connected', fi, where, ok,
+           'every pair of maximal cliques must get an edge (unconditionally, weight = -|intersection|) so that the spanning tree is '
+           'connected even for attribute-disjoint components; belief_propagation shares one logZ across all cliques')
+    tree = [c for c in calls_in(fi.node) if U(c.func).endswith('minimum_spanning_tree')]
+    graph = U(adds[0].func.value) if adds else None
+    ok = len(tree) == 1 and tree[0].args and U(tree[0].args[0]) == graph
+    ctx.ob('tree-connected', fi, tree[0] if tree else fi.node, ok, 'the junction tree is the spanning tree of that complete clique graph')
